@@ -125,8 +125,8 @@ class Sym:
         return self
 
     def __getattr__(self, name):
-        if name.startswith("_"):
-            raise AttributeError(name)
+        if not name.startswith("m_"):
+            raise AttributeError(name)           # only data members (the repository's m_ convention), never evaluator protocol names
         return Sym.of(self.q + "." + name)       # a field of an opaque object is opaque too
 
     def __repr__(self):
